@@ -278,7 +278,7 @@ def assemble(unit_name, out_path=None):
             out_lines.append(l)
             linemap.append(info_fn(j))
 
-    header = "// GENERATED by /verif/vxlib/unit.py on every run from contracts/%s.vx and /repo -- do not edit\n#![allow(unused_imports, unused_variables, dead_code, unused_mut, non_snake_case, unused_parens, unused_braces)]\nuse vstd::prelude::*;\nverus! {\n" % unit_name
+    header = "// GENERATED by /verif/vxlib/unit.py on every run from contracts/%s.vx and /repo -- do not edit\n#![feature(allocator_api)]\n#![allow(unused_imports, unused_variables, dead_code, unused_mut, non_snake_case, unused_parens, unused_braces)]\nuse vstd::prelude::*;\nverus! {\n" % unit_name
     emit(header.rstrip("\n"), lambda j: {"kind": "header"})
     extracted = []
     lemma_props = []
